@@ -338,6 +338,25 @@ func runFullDiskCase(t *rapid.T, fc fullCfg) {
 		return x.Rename(fd, fn, td, tn)
 	})
 	acts["rename2"] = acts["rename"]
+	// a size for a directory or a symbolic link (or beyond the maximum for a file), sent together with times and mode
+	acts["setattr_refused"] = wrap("SETATTR", func(t *rapid.T) error {
+		var cands []*MNode
+		switch rapid.IntRange(0, 2).Draw(t, "refusedkind") {
+		case 0:
+			cands = x.M.LiveKind(nt.NF3DIR)
+		case 1:
+			cands = x.M.LiveKind(nt.NF3LNK)
+		}
+		sz := uint64(pick(t, []int{0, 100, 4096}, "size"))
+		if len(cands) == 0 {
+			cands = x.M.LiveKind(nt.NF3REG)
+			sz = x.M.Lim.MaxFileSize + uint64(pick(t, []int{1, 4096, 1 << 20}, "beyond"))
+		}
+		if len(cands) == 0 {
+			return nil
+		}
+		return x.Setattr(LiveRef(pick(t, cands, "obj")), &sz, true)
+	})
 	// a directory moves to another parent (the target directory may have to grow, which can fail half-way on a full disk)
 	acts["movedir"] = wrap("MOVEDIR", func(t *rapid.T) error {
 		var srcs []*MNode
@@ -720,5 +739,24 @@ func TestC01Full(t *testing.T) {
 	rapid.Check(t, func(t *rapid.T) {
 		runFullDiskCase(t, fullCfg{Prop: "C01", Fsck: FsckOpts{}, CrashImage: true, ReadHoles: true,
 			Relevant: func(err error) bool { return errKind(err) == "crash" }})
+	})
+}
+
+// Refused requests seen by concurrent clients: the enumerated windows of the C03 check whose held request is one
+// that is refused after it has changed cached state (RENAME or CREATE with a name beyond the limit), with a second
+// client waiting for the same directory and, in one family, a third pushing the directory's inode out of the cache
+// - under the linearizability oracle: no reply of the other clients and nothing in the final state may show a trace
+// of the refused request.
+func TestC09Enum(t *testing.T) {
+	enumLin(t, "C09", func(ec enumCase) bool {
+		if ec.Op0.Kind == "renamelong" || ec.Op0.Kind == "createlong" {
+			return true
+		}
+		for _, o := range ec.Prog1 {
+			if o.Kind == "renamelong" || o.Kind == "createlong" {
+				return true
+			}
+		}
+		return false
 	})
 }
